@@ -102,6 +102,11 @@ bool& Stats::isInitInternal() {
 bool Stats::startSocket() {
   std::array<char, 64> err_buf = {};
 
+  if (stats_socket_path_.size() >= sizeof(serv_addr_.sun_path)) {
+    OLOG << "Stats socket path is too long: " << stats_socket_path_;
+    return false;
+  }
+
   sockfd_ = ::socket(AF_UNIX, SOCK_STREAM, 0);
   if (sockfd_ < 0) {
     OLOG << "Error creating socket: "
